@@ -879,6 +879,11 @@ class FakeKube:
                     body['status'] = copy.deepcopy(cur['status'])
                 else:
                     body.pop('status', None)
+            # the apiserver's limit on the total size of an object's annotations (256 KiB): it keeps a runaway of mutually nested state (two operators
+            # storing each other's stored state, under a mutant) from growing without bound -- as in a real cluster, the write is refused
+            anns = (body.get('metadata') or {}).get('annotations') or {}
+            if isinstance(anns, dict) and sum(len(str(k)) + len(str(v)) for k, v in anns.items()) > 262144:
+                return self._err(422, 'metadata.annotations: Too long: must have at most 262144 bytes', 'Invalid')
             req.prev_rv = cur['metadata'].get('resourceVersion')
             out = self.write(pl, ns, name, body)
             req.landed_uid = cur['metadata'].get('uid')
